@@ -174,3 +174,30 @@ for kinds in (None, ('cov',), ('P', 'cov')):
                       ('others-kept', 'len(spec.mix.others(type(self).from_dict(self.to_dict()).misc_models)) == '
                                       'len(spec.mix.others(self.misc_models))')],
              cross_check=False)
+
+# ---- conditions addressed to the species of a coverage model (<name_j>_kwargs): every model is evaluated at the conditions
+# ---- of ITS OWN species, also when one species name ends with another (O / CO) and in either keyword order --------------------
+def cov_on(name_j):
+    return New(COV, name_i=Const('A'), name_j=Const(name_j), intervals=ListOf([Const(0.), Real(0.2, 0.6)]), slopes=RealList(2, -30., 30.))
+
+
+for n1, n2 in (('O', 'CO'), ('CO', 'O'), ('H', 'N')):
+    for order in ((n1, n2), (n2, n1)):
+        sp_ = New(NASA + 'Nasa', name=Const('A'), T_low=Real(50., 400.), T_mid=Real(500., 1500.), T_high=Real(2000., 6000.),
+                  a_low=RealVec(7, -50., 50.), a_high=RealVec(7, -50., 50.), phase=Const('s'),
+                  misc_models=ListOf([cov_on(n1), cov_on(n2)]))
+        args = dict(self=sp_, T=Real(100., 3000.))
+        for nm_ in order:
+            args['%s_kwargs' % nm_] = DictOf({'x': Real(0., 1.)})
+        for q in ('HoRT', 'GoRT'):
+            bare = (BARE7 % q) if q != 'GoRT' else '(%s - %s)' % (BARE7 % 'HoRT', BARE7 % 'SoR')
+            contract(NASA + 'Nasa.get_' + q, P, label='own-conditions[models=%s,%s;keywords=%s,%s]' % (n1, n2, order[0], order[1]),
+                     args=args, requires=['T > 0', '0 < self.T_low', 'self.T_low < self.T_mid', 'self.T_mid < self.T_high'],
+                     ensures=[('each-model-at-its-own-coverage',
+                               "result == %s + self.misc_models[0].get_HoRT(x=%s_kwargs['x'], T=T) + self.misc_models[1].get_HoRT(x=%s_kwargs['x'], T=T)"
+                               % (bare, n1, n2))],
+                     cross_check=False)
+    contract('pmutt:_get_specie_kwargs', P, label='names=%s,%s' % (n1, n2),
+             args={'specie_name': Const(n1), 'T': Real(100., 3000.), n1 + '_kwargs': DictOf({'x': Real(0., 1.)}),
+                   n2 + '_kwargs': DictOf({'x': Real(0., 1.)})},
+             ensures=[('own-block-only', "result == {'T': T, 'x': %s_kwargs['x']}" % n1)], cross_check=False)
